@@ -88,6 +88,7 @@ type shapeT struct {
 var shapes = []shapeT{
 	{"@Num", `@Num`, numLexerWhole, func(t []string) string { return t[0] }, 1, true},
 	{"@Num after space", `@Num`, numLexerWhole, func(t []string) string { return "  " + t[0] }, 1, true},
+	{`@~"," after space`, `@~","`, numLexerWhole, func(t []string) string { return " \n  " + t[0] }, 1, true},
 	{`@("-" Num)`, `@("-" Num)`, numLexer, func(t []string) string { return "- " + t[0] }, 1, true},
 	{"@(Num Num)", `@(Num Num)`, numLexerWhole, func(t []string) string { return t[0] + " " + t[1] }, 2, true},
 	{"@Num*", `@Num*`, numLexerWhole, func(t []string) string { return t[0] + " " + t[1] }, 2, false},
@@ -408,6 +409,98 @@ func runC17(w *hx.Worker, j c17job, only string) {
 			}
 		}
 	}
+}
+
+// runC17Nested: the numeric field sits in a nested production reached through a repetition / an
+// optional group, under finite and unlimited lookahead: if any captured text is not a valid number the
+// parse must fail (no default value may be stored silently); otherwise the values are exact.
+func runC17Nested(w *hx.Worker, k kindT) {
+	sub := reflect.StructOf([]reflect.StructField{{Name: "V", Type: k.plain, Tag: `@Num`}})
+	type shape struct {
+		name string
+		mk   func() reflect.Type
+		get  func(v reflect.Value) []reflect.Value
+	}
+	shapes := []shape{
+		{"Items []*Sub `@@+`", func() reflect.Type {
+			return reflect.StructOf([]reflect.StructField{{Name: "Items", Type: reflect.SliceOf(reflect.PtrTo(sub)), Tag: `@@+`}})
+		}, func(v reflect.Value) (out []reflect.Value) {
+			f := v.FieldByName("Items")
+			for i := 0; i < f.Len(); i++ {
+				out = append(out, f.Index(i).Elem().FieldByName("V"))
+			}
+			return
+		}},
+		{"A *Sub `@@`; B *Sub `@@?`", func() reflect.Type {
+			return reflect.StructOf([]reflect.StructField{{Name: "A", Type: reflect.PtrTo(sub), Tag: `@@`}, {Name: "B", Type: reflect.PtrTo(sub), Tag: `@@?`}})
+		}, func(v reflect.Value) (out []reflect.Value) {
+			for _, n := range []string{"A", "B"} {
+				if f := v.FieldByName(n); !f.IsNil() {
+					out = append(out, f.Elem().FieldByName("V"))
+				}
+			}
+			return
+		}},
+	}
+	texts := []string{"0", "1", "127", "128", "255", "256", "-1", "-129", "65536", "1e39", "1.5", "x", "0x7f", "99999999999999999999"}
+	for _, sh := range shapes {
+		rt := sh.mk()
+		for _, la := range []int{1, 2, -1, -5} {
+			p, err := participle.Build[any](participle.Lexer(numLexerWhole), participle.Elide("Space"), participle.UseLookahead(la), participle.Union[any](reflect.New(rt).Elem().Interface()))
+			if err != nil {
+				w.Violate(hx.Violation{Key: fmt.Sprintf("nested field=%s shape=%s", k.name, sh.name), Class: "build-failed", Detail: map[string]any{"err": err.Error()}})
+				continue
+			}
+			for _, t1 := range texts {
+				for _, t2 := range texts {
+					in := t1 + " " + t2
+					key := fmt.Sprintf("nested field=%s shape=%s lookahead=%d :: in=%q", k.name, sh.name, la, in)
+					w.Count("evaluations", 1)
+					o1, e1 := oracle(k, t1)
+					o2, e2 := oracle(k, t2)
+					var res *any
+					var perr error
+					pan, msg := hx.Guard(func() { res, perr = p.ParseString("", in) })
+					if pan {
+						w.Violate(hx.Violation{Key: key, Class: "panic", Detail: map[string]any{"panic": msg}})
+						continue
+					}
+					if e1 != nil || e2 != nil {
+						if perr == nil {
+							w.Violate(hx.Violation{Key: key, Class: "invalid-number-accepted", Detail: map[string]any{"ast": g2s(res), "strconv": fmt.Sprint(e1, e2)}})
+						}
+						w.DistinctS("nerr" + in)
+						continue
+					}
+					if perr != nil {
+						w.Violate(hx.Violation{Key: key, Class: "valid-number-rejected", Detail: map[string]any{"error": perr.Error()}})
+						continue
+					}
+					got := sh.get(reflect.ValueOf(*res))
+					want := []outcome{o1, o2}
+					bad := len(got) != 2
+					for i := 0; !bad && i < 2; i++ {
+						b, nan := valueBits(got[i])
+						if nan != want[i].nan || (!nan && b != want[i].bits) {
+							bad = true
+						}
+					}
+					if bad {
+						w.Violate(hx.Violation{Key: key, Class: "wrong-value", Detail: map[string]any{"ast": g2s(res)}})
+						continue
+					}
+					w.DistinctS("nok" + k.name + in)
+				}
+			}
+		}
+	}
+}
+
+func g2s(p *any) string {
+	if p == nil || *p == nil {
+		return "<nil>"
+	}
+	return fmt.Sprintf("%+v", *p)
 }
 
 func piecesFlat(j c17job, t1, t2 string) []string {
@@ -853,12 +946,23 @@ func plan(c *hx.Ctx) *hx.Plan {
 	if c.Prop == "C17" {
 		js := c17jobs()
 		return &hx.Plan{
-			N:        len(js),
-			Job:      func(w *hx.Worker, i int) { runC17(w, js[i], "") },
-			Describe: func(i int) string { return fmt.Sprintf("field=%s(%s) shape=%s", js[i].k.name, js[i].v.name, js[i].sh.name) },
-			Rule:     "cross product: 12 numeric kinds x {plain, named, pointer, pointer-to-named, slice, slice of named} x capture shapes {@Num, @Num after elided space, @(\"-\" Num), @(Num Num), @Num* into slices} x numeric texts (boundary values min-1..max+1 of every width in decimal/hex/octal/legacy-octal/binary, signs, underscores, float boundaries of float32/float64, subnormals, Inf/NaN words, hex floats, junk). Oracle: strconv.ParseInt/ParseUint/ParseFloat with the field's bit size. evaluations = parses; distinct_nontrivial = distinct (kind, stored values) / error texts",
-			Bounds:   map[string]any{"kinds": len(kinds), "variants": len(variants), "shapes": len(shapes), "int_texts": len(intTexts()), "float_texts": len(floatTexts())},
-			Assume:   []string{"strconv is the oracle named by the property"},
+			N: len(js) + len(kinds),
+			Job: func(w *hx.Worker, i int) {
+				if i >= len(js) {
+					runC17Nested(w, kinds[i-len(js)])
+					return
+				}
+				runC17(w, js[i], "")
+			},
+			Describe: func(i int) string {
+				if i >= len(js) {
+					return "nested " + kinds[i-len(js)].name
+				}
+				return fmt.Sprintf("field=%s(%s) shape=%s", js[i].k.name, js[i].v.name, js[i].sh.name)
+			},
+			Rule:   "cross product: 12 numeric kinds x {plain, named, pointer, pointer-to-named, slice, slice of named} x capture shapes {@Num, @Num after elided space, @(\"-\" Num), @(Num Num), @Num* into slices} x numeric texts (boundary values min-1..max+1 of every width in decimal/hex/octal/legacy-octal/binary, signs, underscores, float boundaries of float32/float64, subnormals, Inf/NaN words, hex floats, junk). Oracle: strconv.ParseInt/ParseUint/ParseFloat with the field's bit size. evaluations = parses; distinct_nontrivial = distinct (kind, stored values) / error texts",
+			Bounds: map[string]any{"kinds": len(kinds), "variants": len(variants), "shapes": len(shapes), "int_texts": len(intTexts()), "float_texts": len(floatTexts())},
+			Assume: []string{"strconv is the oracle named by the property"},
 		}
 	}
 	// C18
@@ -904,6 +1008,18 @@ func plan(c *hx.Ctx) *hx.Plan {
 
 func replay(c *hx.Ctx, key string) []hx.Violation {
 	w := hx.NewReplayWorker()
+	if c.Prop == "C17" && strings.HasPrefix(key, "nested ") {
+		for _, k := range kinds {
+			runC17Nested(w, k)
+		}
+		var out []hx.Violation
+		for _, v := range w.Violations() {
+			if v.Key == key {
+				out = append(out, v)
+			}
+		}
+		return out
+	}
 	if c.Prop == "C17" {
 		for _, j := range c17jobs() {
 			if strings.HasPrefix(key, fmt.Sprintf("field=%s(%s) shape=%s ::", j.k.name, j.v.name, j.sh.name)) {
